@@ -61,6 +61,9 @@ pub fn reconcile_aliases(crate_parsed_data: &mut BTreeMap<CrateName, ParsedData>
         parsed_data.structs.sort();
         parsed_data.enums.sort();
         parsed_data.aliases.sort();
+        parsed_data
+            .consts
+            .sort_by(|a, b| a.id.original.cmp(&b.id.original));
 
         // put back our import types for file generation.
         parsed_data.import_types = import_types;
